@@ -1,0 +1,8 @@
+//go:build !verif
+
+package zenodb
+
+import "time"
+
+// verifScale is a verification hook. Without the "verif" build tag it returns d.
+func verifScale(name string, d time.Duration) time.Duration { return d }
